@@ -298,8 +298,8 @@ class Check:
             r["floor"] = floor
             # `floor` is the instance count confirmed on the reviewed tree.  Ordinary maintenance merges or splits a few
             # instances (two error sites folded into one helper, a loop turned into an iterator chain), so the rule fails closed
-            # only when it sees clearly fewer instances than were reviewed: below 3/4 of the count (exactly, for counts up to 5)
-            eff = floor if floor <= 5 else -(-floor * 3 // 4)
+            # only when it sees clearly fewer instances than were reviewed: below 70% of the count (exactly, for counts up to 2)
+            eff = floor if floor <= 2 else max(2, int(floor * 0.7))
             r["fails_below"] = eff
             if instances < eff:
                 self.add(Finding(name, name + "::floor", "rule %s matched %d instances, the reviewed tree has %d (fails below %d): the rule no longer sees what it is about (fail closed)" % (name, instances, floor, eff)))
